@@ -791,6 +791,7 @@ func C06(run *mon.Run) {
 	c06CraftedPolynomials(run)
 	c06EveryThreshold(run)
 	c06ParameterGrid(run)
+	c06IdentityKeyShare(run)
 	run.Require(run.Counter("small-pairs") == int64(len(pairs)), "not every (n,t) pair with n<=7 completed")
 	for _, p := range []string{"ascending-low", "top-block", "descending", "alternating-low-high", "first-largest", "random"} {
 		run.Require(run.Counter("pattern."+p) > 0, "limb pattern not exercised: "+p)
@@ -1250,4 +1251,109 @@ func polyCoeffs(xs []int64, ys []*big.Int) []*big.Int {
 		co = next
 	}
 	return co
+}
+
+// c06IdentityKeyShare: a key set in which one participant's public key share is the identity (the
+// polynomial has a root at that participant's point - a DKG can end that way when a dealer and that
+// participant collude). Such a key set is still a consistent output: the constructors accept it, the
+// other participants sign, verify and add shares, and any t+1 of them reconstruct the group signature
+// through both APIs.
+func c06IdentityKeyShare(run *mon.Run) {
+	r := run.Rand("identity-key-share")
+	for _, g := range [][2]int{{3, 1}, {5, 2}, {7, 3}, {10, 4}} {
+		n, t := g[0], g[1]
+		j := r.IntN(n) // the participant whose share is zero
+		p := craftedPoly{kind: "root-at-participant", a: make([]*big.Int, t+1)}
+		for i := range p.a {
+			p.a[i] = randScalar(r)
+		}
+		p.a[0] = new(big.Int)
+		p.a[0] = ref.Fr.Neg(p.eval(int64(j + 1)))
+		if p.a[0].Sign() == 0 {
+			continue
+		}
+		pks := make([]crypto.PublicKey, n)
+		sks := make([]crypto.PrivateKey, n)
+		bad := false
+		for i := 0; i < n; i++ {
+			v := p.eval(int64(i + 1))
+			if i == j {
+				pks[i] = crypto.IdentityBLSPublicKey()
+				continue
+			}
+			if v.Sign() == 0 {
+				bad = true
+				break
+			}
+			sks[i] = skFromInt(v)
+			pks[i] = sks[i].PublicKey()
+		}
+		if bad {
+			continue
+		}
+		gpk := skFromInt(p.a[0]).PublicKey()
+		msg, tag := []byte("identity key share"), "thr-id"
+		h := crypto.NewExpandMsgXOFKMAC128(tag)
+		H, err := hashPoint(msg, h, "kmac:"+tag)
+		if err != nil {
+			continue
+		}
+		want := ref.EncodeG1(ref.E1.Mul(H, p.a[0]))
+		rep := map[string]any{"n": n, "t": t, "identity_share_index": j}
+		var signers []int
+		for _, i := range r.Perm(n) {
+			if i != j && len(signers) < t+1 {
+				signers = append(signers, i)
+			}
+		}
+		me := signers[0]
+		run.Guard("threshold objects over a key set with an identity share", rep, func() {
+			ins, e1 := crypto.NewBLSThresholdSignatureInspector(gpk, pks, t, msg, tag)
+			part, e2 := crypto.NewBLSThresholdSignatureParticipant(gpk, pks, t, me, sks[me], msg, tag)
+			run.Eval(2)
+			if e1 != nil || e2 != nil {
+				run.Violate("C06:identity-key-share:constructor-refuses", fmt.Sprintf("key set of (n=%d,t=%d) whose public key share %d is the identity: inspector constructor %v, participant constructor %v", n, t, j, e1, e2), rep)
+				return
+			}
+			var shares []crypto.Signature
+			for _, i := range signers {
+				sh, _ := sks[i].Sign(msg, h)
+				shares = append(shares, sh)
+				ok, _, e := ins.VerifyAndAdd(i, sh)
+				if !ok || e != nil {
+					run.Violate("C06:identity-key-share:valid-share-refused", fmt.Sprintf("VerifyAndAdd(%d) = (%v, %v) for a valid share", i, ok, e), rep)
+					return
+				}
+				if i != me {
+					_, _ = part.TrustedAdd(i, sh)
+				}
+			}
+			// (SignShare only returns the participant's own share; it is added like any other)
+			own, eo := part.SignShare()
+			if eo != nil || !bytes.Equal(own, shares[0]) {
+				run.Violate("C06:identity-key-share:sign-share", fmt.Sprintf("SignShare() = %x (err %v), expected the participant's own share", []byte(own), eo), rep)
+				return
+			}
+			_, _ = part.TrustedAdd(me, own)
+			for name, f := range map[string]func() (crypto.Signature, error){
+				"inspector":   ins.ThresholdSignature,
+				"participant": part.ThresholdSignature,
+				"stateless":   func() (crypto.Signature, error) { return crypto.BLSReconstructThresholdSignature(n, t, shares, signers) },
+			} {
+				sig, e := f()
+				run.Eval(1)
+				if e != nil || !bytes.Equal(sig, want) {
+					run.Violate("C06:identity-key-share:reconstruction:"+name, fmt.Sprintf("%s reconstruction over a key set with an identity share = %x (err %v), reference %x", name, []byte(sig), e, want), rep)
+				}
+			}
+			// the identity share itself never verifies, whatever is offered for it
+			for _, cand := range [][]byte{append([]byte{0xC0}, make([]byte, 47)...), shares[0]} {
+				if ok, e := ins.VerifyShare(j, cand); ok || e != nil {
+					run.Violate("C06:identity-key-share:accepts-share", fmt.Sprintf("VerifyShare(%d, %x) under an identity public key share = (%v, %v)", j, cand, ok, e), rep)
+				}
+			}
+		})
+		run.Count("identity-key-share.cases", 1)
+		run.Shape(fmt.Sprintf("identity-key-share|%d|%d", n, t))
+	}
 }
